@@ -572,8 +572,10 @@ func (t *Teamserver) handleRequest(id string) {
 
 		logger.Good("User <" + colors.Blue(UserName) + "> " + colors.Green("Authenticated"))
 
+		client.Mutex.Lock()
 		client.Authenticated = true
 		client.ClientID = id
+		client.Mutex.Unlock()
 
 		err := t.SendEvent(id, events.Authenticated(true))
 		if err != nil {
@@ -703,6 +705,15 @@ func (t *Teamserver) EventBroadcast(ExceptClient string, pk packager.Package) {
 	t.Clients.Range(func(key, value any) bool {
 		ClientID := key.(string)
 		if ExceptClient != ClientID {
+			// never hand events to a connection that has not authenticated (yet)
+			client := value.(*Client)
+			client.Mutex.Lock()
+			Authenticated := client.Authenticated
+			client.Mutex.Unlock()
+			if !Authenticated {
+				return true
+			}
+
 			err := t.SendEvent(ClientID, pk)
 			if err != nil && !strings.Contains(err.Error(), "use of closed network connection") {
 				logger.Error("SendEvent error: ", colors.Red(err))
